@@ -14,6 +14,7 @@ mod c04;
 mod c05;
 mod c06;
 mod c07;
+mod c08;
 mod c09;
 mod c10;
 mod c11;
@@ -80,6 +81,7 @@ fn main() {
         "C05" => c05::run(&p, &mut rep),
         "C06" => c06::run(&p, &mut rep),
         "C07" => c07::run(&p, &mut rep),
+        "C08" => c08::run_monitor(&p, &mut rep),
         "C09" => c09::run(&p, &mut rep),
         "C10" => c10::run(&p, &mut rep),
         "C11" => c11::run(&p, &mut rep),
